@@ -1001,6 +1001,22 @@ package consensus
 // A full block reaches the proof-of-work fields of its state through ApplyHeader, applied to the
 // block's own header and to a state that differs from the parent only in fields ApplyHeader does
 // not read (C13: identical for headers and full blocks).
+// reverting a block rewrites every element it touched as unspent / unresolved and unrevised
+//@ func forEachRevertedElement
+//@   prop C04
+//@   asserts-only
+//@   at call:siacoinLeaf#1 assert @reverted-unspent !$arg1
+//@   at call:siafundLeaf#1 assert @reverted-unspent !$arg1
+//@   at call:fileContractLeaf#1 assert @reverted-unresolved !$arg2 && $arg1 == nil
+//@   at call:v2FileContractLeaf#1 assert @reverted-unresolved !$arg2 && $arg1 == nil
+//@ func (*ElementAccumulator).revertBlock
+//@   trusted
+//@   modifies acc
+//@ func RevertBlock
+//@   prop C04
+//@   asserts-only
+//@   requires s.Network != nil
+//@   at call:MidState.ApplyBlock#1 assert @recomputes-the-block-effects $arg1 == b && $arg2 == bs && $arg0.base == s
 // the accumulator leaves of the elements a block touched carry the spent / resolved flag of the
 // recorded diff (C04 / C02: a spent element or a resolved contract is rewritten as such)
 //@ func forEachAppliedElement
